@@ -356,6 +356,14 @@ SELFTEST_EXPECT = {
     ("B", "Box::f_", "W", ()), ("B", "Box::h_", "W", ()), ("B", "Box::items_", "R", ("items_mutex_",)),
     ("B", "Box::map4_", "R", ("m_",)), ("B", "Box::map4_", "W", ("m_",)), ("B", "Box::map_", "R", ("m_",)),
     ("B", "Box::vec_", "R", ()), ("B", "Item::shared", "R", ("items_mutex_",)),
+    # explicit operations on lock objects (entryC): unlock()/lock()/release(), join of branches and loop
+    # iterations, defer_lock / try_to_lock, an inner guard block, a condition-variable wait, try/catch
+    ("C", "Box::k1_", "W", ("m_",)), ("C", "Box::k1_", "R", ("m_",)), ("C", "Box::k2_", "W", ()),
+    ("C", "Box::k3_", "W", ("m_",)), ("C", "Box::k4_", "W", ()), ("C", "Box::k5_", "W", ()),
+    ("C", "Box::k6_", "W", ("m2_",)), ("C", "Box::k7_", "W", ("m2_",)), ("C", "Box::k8_", "W", ("m2_", "m3_")),
+    ("C", "Box::k9_", "W", ("m2_",)), ("C", "Box::k10_", "W", ()), ("C", "Box::k11_", "R", ("m4_",)),
+    ("C", "Box::k11_", "W", ("m4_",)), ("C", "Box::k12_", "W", ("m4_",)), ("C", "Box::k12_", "W", ()),
+    ("C", "Box::k13_", "W", ("m_",)), ("C", "Box::k13_", "W", ()),
 }
 SELFTEST_CONFINED = ["Item::owner_only"]
 
